@@ -509,9 +509,9 @@ func c20RunLog(in *c20In) Result {
 	sig := "log:clean"
 	switch {
 	case !c20WellBehaved(in.Ops, in.Ret):
-		sig = "log:handler-writes-after-commit"
+		sig = "handler-writes-after-commit"
 	case len(scopes) > 1:
-		sig = "log:overlapping-scopes"
+		sig = "overlapping-scopes"
 	}
 	res := Result{Term: term, Obs: map[string]interface{}{"lines": lines, "writer_status": cw.status, "delivered": cw.delivered,
 		"ret": ret, "panic": msg}, Sig: sig, Nontrivial: inScope > 0,
@@ -746,15 +746,15 @@ func c20SiteSig(in *c20In) string {
 	}
 	switch {
 	case c20Panics(in.Ops) && !in.HasErr && inScope:
-		return "site:panic-without-errors-directive"
+		return "panic-without-errors-directive"
 	case !c20WellBehaved(in.Ops, in.Ret):
-		return "site:handler-writes-after-commit"
+		return "handler-writes-after-commit"
 	case in.Head:
-		return "site:head"
+		return "head-request"
 	case len(scopes) > 1:
-		return "site:overlapping-scopes"
+		return "overlapping-scopes"
 	case leak:
-		return "site:except-of-earlier-directive"
+		return "except-of-earlier-directive"
 	}
 	return "site:clean"
 }
@@ -876,13 +876,8 @@ func c20RunBurst(in *c20In) Result {
 	if bad != "" && direct == "" {
 		direct = "unexpected log line: " + bad
 	}
-	if sig == "site:clean" {
-		sig = "burst:clean"
-	} else {
-		sig = "burst:" + strings.TrimPrefix(sig, "site:")
-	}
 	return Result{Term: cApp("CBurst", cList(terms)), Obs: obs, Sig: sig, Nontrivial: true,
-		Class: fmt.Sprintf("%s:n=%d", sig, len(in.Burst)), Direct: direct}
+		Class: fmt.Sprintf("burst:%s:n=%d", sig, len(in.Burst)), Direct: direct}
 }
 
 func c20Run(in0 interface{}) Result {
@@ -1151,6 +1146,16 @@ func c20GenSiteReq(r *Rand) *c20Req {
 	return q
 }
 
+// c20DirsClean: one scope for all log directives, an except list on the last one only
+func c20DirsClean(ds []c20Dir) bool {
+	for i, d := range ds {
+		if d.Scope != ds[0].Scope || (i < len(ds)-1 && len(d.Except) > 0) {
+			return false
+		}
+	}
+	return true
+}
+
 func c20GenSite(r *Rand) *c20In {
 	in := &c20In{Kind: "site", Dirs: c20GenDirs(r), HasErr: r.Chance(45), Head: r.Chance(8), Path: r.Pick(c20Paths),
 		Tail: c20Tails[r.Intn(len(c20Tails))], Req: c20GenSiteReq(r)}
@@ -1192,6 +1197,9 @@ func c20Gen(r *Rand, tier string) []interface{} {
 		used := map[string]bool{}
 		for j := 0; j < nr; j++ {
 			sc := r.Pick(c20Scopes)
+			for t := 0; t < 3 && j == 0 && !c20Matches(in.Path, sc); t++ {
+				sc = r.Pick(c20Scopes)
+			}
 			if used[sc] {
 				continue
 			}
@@ -1220,6 +1228,9 @@ func c20Gen(r *Rand, tier string) []interface{} {
 	// concurrent bursts against one site
 	for i := 0; i < nBurst; i++ {
 		first := c20GenSite(r)
+		for i%2 == 0 && !c20DirsClean(first.Dirs) {
+			first = c20GenSite(r)
+		}
 		first.Head = false
 		b := &c20In{Kind: "burst"}
 		for j := 0; j < burstN; j++ {
@@ -1227,7 +1238,7 @@ func c20Gen(r *Rand, tier string) []interface{} {
 			x.Dirs, x.HasErr, x.Tail, x.Head = first.Dirs, first.HasErr, first.Tail, false
 			if i%2 == 0 {
 				// clean bursts: well-behaved handlers only
-				for !c20WellBehaved(x.Ops, x.Ret) || (c20Panics(x.Ops) && !x.HasErr) {
+				for c20SiteSig(x) != "site:clean" {
 					x.Ops, x.Ret = c20GenOps(r, "site")
 				}
 			}
